@@ -1,9 +1,15 @@
 #!/usr/bin/env python3
-"""Rewrites the seeded-changes table of DESIGN.md (between the SEEDED-TABLE markers) from seeded/*/meta.json."""
+"""Rewrites the seeded-changes table of DESIGN.md (between the SEEDED-TABLE markers) from seeded/*/meta.json.
+
+Per change: the outcome of the FIRST run of the checks against it (tools/mutest.py, `check_results`: what
+the machinery did when it first met the change) and of the latest regression run (tools/seedcheck.py,
+`recheck`: what the current machinery does)."""
 import glob, json, os, re
 ROOT = os.path.dirname(os.path.dirname(os.path.abspath(__file__)))
 rows = []
-n = det = inp = 0
+# what happened the very first time, for the changes whose meta.json was rewritten by a later re-run
+FIRST = json.load(open(os.path.join(ROOT, "seeded", "first_pass.json")))
+n = first_conc = first_noinput = now_conc = now_noinput = now_missed = 0
 for f in sorted(glob.glob(os.path.join(ROOT, "seeded", "*", "meta.json"))):
     m = json.load(open(f))
     name = os.path.basename(os.path.dirname(f))
@@ -11,27 +17,54 @@ for f in sorted(glob.glob(os.path.join(ROOT, "seeded", "*", "meta.json"))):
     title = ""
     if os.path.exists(notes):
         t = [l for l in open(notes, encoding="utf-8").read().splitlines() if l.startswith("#")]
-        title = t[0].lstrip("# ").strip()[:110] if t else ""
-    for p, r in m.get("check_results", {}).items():
-        n += 1
-        lines = " ".join(r["lines"])
-        if r["exit"] == 1:
-            det += 1
-            if "no-failing-input-found" not in lines:
-                inp += 1
-        how = r["detail"].split("|")[0].strip() if r["exit"] == 1 else "MISSED"
-        rows.append("| %s | %s | %s | %s |" % (name, title.replace("|", "/"), p, how[:80]))
-table = "| seeded | what it is | check | how it is caught |\n|---|---|---|---|\n" + "\n".join(rows)
-summary = "%d check runs against %d confirmed seeded changes: %d end in VIOLATION, %d of them with a concrete failing input." % (n, len(glob.glob(os.path.join(ROOT, "seeded", "*", "meta.json"))), det, inp)
+        title = t[0].lstrip("# ").strip()[:100] if t else ""
+    pid = m["breaks_property"]
+    r = m.get("check_results", {}).get(pid)
+    if r is None:
+        continue
+    n += 1
+    lines = " ".join(r["lines"])
+    if r["exit"] == 1 and "no-failing-input-found" not in lines:
+        first = "input"
+        first_conc += 1
+    elif r["exit"] == 1:
+        first = "no input"
+        first_noinput += 1
+    else:
+        first = "MISSED"
+    if name in FIRST:
+        if first == "input":
+            first_conc -= 1
+        elif first == "no input":
+            first_noinput -= 1
+        first = FIRST[name]
+        if first.startswith("input"):
+            first_conc += 1
+        elif first.startswith("no input"):
+            first_noinput += 1
+    rc = m.get("recheck")
+    if rc:
+        kind, what = rc["outcome"], rc.get("what", "")
+    else:
+        kind = {"input": "concrete", "no input": "no-input", "MISSED": "missed"}[first]
+        what = r["detail"].split("|")[0].split(":")[-1].strip()
+    if kind == "concrete":
+        now_conc += 1
+        how = "failing input: " + what
+    elif kind == "no-input":
+        now_noinput += 1
+        how = "no-failing-input-found: " + what
+    else:
+        now_missed += 1
+        how = "MISSED"
+    rows.append("| %s | %s | %s | %s |" % (name, title.replace("|", "/"), first, how[:90].replace("|", "/")))
+table = "| seeded | what it is | first run | current machinery (`./check %s`) |\n|---|---|---|---|\n" % "<id>" + "\n".join(rows)
+summary = ("%d confirmed seeded changes. First run of the property's check against each: %d VIOLATION with a concrete failing input, "
+           "%d VIOLATION no-failing-input-found, %d missed. Current machinery (latest `tools/seedcheck.py` run): %d with a concrete failing "
+           "input, %d no-failing-input-found, %d missed." % (n, first_conc, first_noinput, n - first_conc - first_noinput, now_conc, now_noinput, now_missed))
 p = os.path.join(ROOT, "DESIGN.md")
 s = open(p, encoding="utf-8").read()
 block = "<!-- SEEDED-TABLE-BEGIN -->\n" + summary + "\n\n" + table + "\n<!-- SEEDED-TABLE-END -->"
-if "<!-- SEEDED-TABLE-BEGIN -->" in s:
-    s = re.sub(r"<!-- SEEDED-TABLE-BEGIN -->.*?<!-- SEEDED-TABLE-END -->", lambda _: block, s, flags=re.S)
-else:
-    # first time: replace the hand-inserted table (from its header row up to the blank line after it)
-    i = s.index("| seeded | what it is | check | how it is caught |")
-    j = s.index("\n\n", i)
-    s = s[:i] + block + s[j:]
+s = re.sub(r"<!-- SEEDED-TABLE-BEGIN -->.*?<!-- SEEDED-TABLE-END -->", lambda _: block, s, flags=re.S)
 open(p, "w", encoding="utf-8").write(s)
 print(summary)
